@@ -5,7 +5,7 @@ cd "$(dirname "$0")"
 export CARGO_NET_OFFLINE=true
 mkdir -p build
 python3 tools/extract_tables.py || true
-(cd lean && lake build)
+(cd lean && lake build JL jldrv JL.Props.All)
 [ -f harness/Cargo.lock ] || cp /repo/Cargo.lock harness/Cargo.lock
 (cd harness && CARGO_TARGET_DIR=/verif/build/target cargo build --offline --quiet && CARGO_TARGET_DIR=/verif/build/target cargo build --offline --quiet --release) || true
 (cd /repo && cargo build --offline --quiet --features cmdline --target-dir /verif/build/cli-target) || true
